@@ -1,0 +1,202 @@
+// Copyright 2026 Dolthub, Inc.
+//
+// Licensed under the Apache License, Version 2.0 (the "License");
+// you may not use this file except in compliance with the License.
+// You may obtain a copy of the License at
+//
+//     http://www.apache.org/licenses/LICENSE-2.0
+//
+// Unless required by applicable law or agreed to in writing, software
+// distributed under the License is distributed on an "AS IS" BASIS,
+// WITHOUT WARRANTIES OR CONDITIONS OF ANY KIND, either express or implied.
+// See the License for the specific language governing permissions and
+// limitations under the License.
+
+//go:build verif
+
+package types
+
+import (
+	flatbuffers "github.com/dolthub/flatbuffers/v23/go"
+
+	"github.com/dolthub/dolt/go/gen/fb/serial"
+	"github.com/dolthub/dolt/go/store/hash"
+)
+
+// Verification vocabulary (ghost code, compiled only with -tags verif). The
+// bodies are executable so that contracts can also be run concretely.
+
+func verif_old[T any](x T) T { return x }
+
+// verif_loopold(e) in a loop invariant: the value of e when the loop was entered (contracts only).
+func verif_loopold[T any](x T) T { return x }
+
+func verif_res[T any](i int) T { var z T; return z }
+
+func verif_implies(a, b bool) bool { return !a || b }
+
+func verif_forall(lo, hi int, f func(int) bool) bool {
+	for k := lo; k < hi; k++ {
+		if !f(k) {
+			return false
+		}
+	}
+	return true
+}
+
+func verif_exists(lo, hi int, f func(int) bool) bool {
+	for k := lo; k < hi; k++ {
+		if f(k) {
+			return true
+		}
+	}
+	return false
+}
+
+func verif_assert(b bool) {
+	if !b {
+		panic("verif_assert failed")
+	}
+}
+
+func verif_assume(b bool) {}
+
+// verif_sameslice(a, b): a and b are the same window of the same backing array (contracts only; the executable
+// body cannot tell two empty windows apart).
+func verif_sameslice[T any](a, b []T) bool {
+	return len(a) == len(b) && (len(a) == 0 || &a[0] == &b[0])
+}
+
+// verif_rangeidx stands for the number of completed iterations of the enclosing range loop (contracts only).
+func verif_rangeidx() int { return 0 }
+
+// verif_arg stands for the i-th argument of the call a call-site assertion is attached to (contracts only).
+func verif_arg[T any](i int) T { var z T; return z }
+
+// ---- ghost state for the reference walker (C09): for every address field the value read and whether it was reported
+
+var verif_ghost struct {
+	v_ws_working     hash.Hash // value of the field as read by the walker
+	w_ws_working     bool      // some callback invocation reported exactly that value
+	v_ws_staged      hash.Hash // value of the field as read by the walker
+	w_ws_staged      bool      // some callback invocation reported exactly that value
+	v_ms_prework     hash.Hash // value of the field as read by the walker
+	w_ms_prework     bool      // some callback invocation reported exactly that value
+	v_ms_from        hash.Hash // value of the field as read by the walker
+	w_ms_from        bool      // some callback invocation reported exactly that value
+	v_ms_prehead     hash.Hash // value of the field as read by the walker
+	w_ms_prehead     bool      // some callback invocation reported exactly that value
+	v_rs_prework     hash.Hash // value of the field as read by the walker
+	w_rs_prework     bool      // some callback invocation reported exactly that value
+	v_rs_onto        hash.Hash // value of the field as read by the walker
+	w_rs_onto        bool      // some callback invocation reported exactly that value
+	v_tag_commit     hash.Hash // value of the field as read by the walker
+	w_tag_commit     bool      // some callback invocation reported exactly that value
+	v_stash_root     hash.Hash // value of the field as read by the walker
+	w_stash_root     bool      // some callback invocation reported exactly that value
+	v_stash_head     hash.Hash // value of the field as read by the walker
+	w_stash_head     bool      // some callback invocation reported exactly that value
+	v_stat_root      hash.Hash // value of the field as read by the walker
+	w_stat_root      bool      // some callback invocation reported exactly that value
+	v_commit_root    hash.Hash // value of the field as read by the walker
+	w_commit_root    bool      // some callback invocation reported exactly that value
+	v_commit_closure hash.Hash // value of the field as read by the walker
+	w_commit_closure bool      // some callback invocation reported exactly that value
+	saw_WorkingSet   bool      // the message was decoded as a WorkingSet
+	saw_Tag          bool      // the message was decoded as a Tag
+	saw_Stash        bool      // the message was decoded as a Stash
+	saw_Statistic    bool      // the message was decoded as a Statistic
+	saw_Commit       bool      // the message was decoded as a Commit
+	parentBytes      []byte    // the packed parent address array of the commit being read
+	stagedPresent    bool      // staged_root_addr is present
+	mergePresent     bool      // merge_state is present
+	preHeadPresent   bool      // merge_state.pre_merge_head_commit_addr is present
+	rebasePresent    bool      // rebase_state is present
+}
+
+func verif_x_InitWorkingSetRoot(o *serial.WorkingSet, buf []byte, offset flatbuffers.UOffsetT) (err error) {
+	return serial.InitWorkingSetRoot(o, buf, offset)
+}
+
+func verif_x_WorkingSet_WorkingRootAddrBytes(m *serial.WorkingSet) (b []byte) {
+	return m.WorkingRootAddrBytes()
+}
+
+func verif_x_WorkingSet_StagedRootAddrBytes(m *serial.WorkingSet) (b []byte) {
+	return m.StagedRootAddrBytes()
+}
+
+func verif_x_MergeState_PreWorkingRootAddrBytes(m *serial.MergeState) (b []byte) {
+	return m.PreWorkingRootAddrBytes()
+}
+
+func verif_x_MergeState_FromCommitAddrBytes(m *serial.MergeState) (b []byte) {
+	return m.FromCommitAddrBytes()
+}
+
+func verif_x_MergeState_PreMergeHeadCommitAddrBytes(m *serial.MergeState) (b []byte) {
+	return m.PreMergeHeadCommitAddrBytes()
+}
+
+func verif_x_RebaseState_PreWorkingRootAddrBytes(m *serial.RebaseState) (b []byte) {
+	return m.PreWorkingRootAddrBytes()
+}
+
+func verif_x_RebaseState_OntoCommitAddrBytes(m *serial.RebaseState) (b []byte) {
+	return m.OntoCommitAddrBytes()
+}
+
+func verif_x_InitTagRoot(o *serial.Tag, buf []byte, offset flatbuffers.UOffsetT) (err error) {
+	return serial.InitTagRoot(o, buf, offset)
+}
+
+func verif_x_Tag_CommitAddrBytes(m *serial.Tag) (b []byte) { return m.CommitAddrBytes() }
+
+func verif_x_InitStashRoot(o *serial.Stash, buf []byte, offset flatbuffers.UOffsetT) (err error) {
+	return serial.InitStashRoot(o, buf, offset)
+}
+
+func verif_x_Stash_StashRootAddrBytes(m *serial.Stash) (b []byte) { return m.StashRootAddrBytes() }
+
+func verif_x_Stash_HeadCommitAddrBytes(m *serial.Stash) (b []byte) { return m.HeadCommitAddrBytes() }
+
+func verif_x_InitStatisticRoot(o *serial.Statistic, buf []byte, offset flatbuffers.UOffsetT) (err error) {
+	return serial.InitStatisticRoot(o, buf, offset)
+}
+
+func verif_x_Statistic_RootBytes(m *serial.Statistic) (b []byte) { return m.RootBytes() }
+
+func verif_x_InitCommitRoot(o *serial.Commit, buf []byte, offset flatbuffers.UOffsetT) (err error) {
+	return serial.InitCommitRoot(o, buf, offset)
+}
+
+func verif_x_Commit_RootBytes(m *serial.Commit) (b []byte) { return m.RootBytes() }
+
+func verif_x_Commit_ParentClosureBytes(m *serial.Commit) (b []byte) { return m.ParentClosureBytes() }
+
+func verif_x_StagedRootAddrLength(m *serial.WorkingSet) (n int) { return m.StagedRootAddrLength() }
+
+func verif_x_PreMergeHeadLength(m *serial.MergeState) (n int) {
+	return m.PreMergeHeadCommitAddrLength()
+}
+
+func verif_x_TryMergeState(m *serial.WorkingSet, obj *serial.MergeState) (ms *serial.MergeState, err error) {
+	return m.TryMergeState(obj)
+}
+
+func verif_x_TryRebaseState(m *serial.WorkingSet, obj *serial.RebaseState) (rs *serial.RebaseState, err error) {
+	return m.TryRebaseState(obj)
+}
+
+func verif_x_cb(addr hash.Hash) (err error) { return nil }
+
+func verif_x_nested(sm SerialMessage, nbf *NomsBinFormat, cb func(addr hash.Hash) error) (err error) {
+	return sm.WalkAddrs(nbf, cb)
+}
+
+// verif_hash_at is the k-th 20-byte address of a packed address array.
+func verif_hash_at(b []byte, k int) hash.Hash {
+	return hash.New(b[hash.ByteLen*k : hash.ByteLen*k+hash.ByteLen])
+}
+
+func verif_x_ParentAddrsBytes(m *serial.Commit) (b []byte) { return m.ParentAddrsBytes() }
